@@ -161,20 +161,20 @@ pub fn cs_canary() {
 // a (long) haystack the match starts.  One-character needle, so the scoring loop is empty and the
 // obligation isolates the arithmetic on `start`; the haystack is a prefix of a constant buffer.
 // ----------------------------------------------------------------------------------------------
-static LONG_HAY: [u8; 70_000] = [b'a'; 70_000];
+static LONG_HAY: [u8; 24_000] = [b'a'; 24_000];
 
 #[kani::proof]
 #[kani::unwind(7)]
 fn c10_prefix_term_no_overflow() {
     let start: usize = kani::any();
-    kani::assume(start < 70_000);
+    kani::assume(start < 24_000);
     let (mut cfg, _) = base_config(kani::any());
     cfg.prefer_prefix = true;
     let mut m = small_matcher(cfg, 8);
     let needle = [AsciiChar(b'a')];
     let s = m.calculate_score::<false, AsciiChar, AsciiChar>(ascii(&LONG_HAY), &needle, start, start + 1, &mut Vec::new());
     assert!(s >= 16 && s <= 16 + 2 * 10 + 8, "score of a one-character match with prefix preference stays in 16..=44");
-    kani::cover!(start > 30_000);
+    kani::cover!(start > 22_000);
     std::mem::forget(m);
 }
 
